@@ -273,6 +273,8 @@ ObsVerdict(e) ==
                       reqs[i][2] = (IF fr.cons THEN cur.sn.pin.v ELSE 0)
                 /\ reqs[i][1] \in {"root", "ts", "sn", "tg"}),
    walk |-> (/\ e.res = "ok" => e.vers.root = ObsFinal.v /\ e.vers.root >= shipped.v
+             \* a shipped root that does not verify under its own keys is refused, whatever is served after it
+             /\ e.res = "ok" => SelfSigned(shipped)
              /\ ob.gapBad = 0
              \* the i-th request for a newer root is made only after i-1 served roots each passed as
              \* the doubly signed, higher-versioned successor of the one before, and asks for the
@@ -289,13 +291,17 @@ ObsVerdict(e) ==
    time |-> ObsTimeOK(e, fr),
    nreq |-> Len(reqs)]
 
+KnownAfter(k) == IF k = -1 \/ known = -1 THEN k ELSE Max(known, k)
+
 OEnd == /\ IsEv("end")
         /\ UNCHANGED <<pc, cyc, shipped, cur, now, enforce, reqs, maxRoot, stale, walk, reord, nread, last, chain, hist, tid>>
         /\ LET e == Rec[l]
                fr == IF e.res = "ok" THEN ObsRoot(e.vers.root) ELSE NoDoc
            IN
            /\ res' = e.res
-           /\ IF StoreKnown(e.store) THEN store' = JStore(e.store) /\ known' = e.store.known
+           \* "a time the client previously recorded": the latest of all of them - a client that records an
+           \* earlier time (and so forgets the later one) must still be held to the later one
+           /\ IF StoreKnown(e.store) THEN store' = JStore(e.store) /\ known' = KnownAfter(e.store.known)
                                       ELSE UNCHANGED <<store, known>>
            /\ IF e.res = "ok"
               THEN /\ root' = fr
@@ -320,7 +326,7 @@ ORead == /\ IsEv("read")
                       /\ e.res = "SystemTimeSteppedBackward" => enforce /\ back
                       /\ enforce /\ ~back /\ Len(e.samples) >= 1 /\ ob.expRole # "none" =>
                            (e.samples[1] > ob.exp <=> e.res \in TimeWords \ {"SystemTimeSteppedBackward"})
-            IN /\ known' = e.store.known
+            IN /\ known' = KnownAfter(e.store.known)
                /\ PrintT(<<"VERDICT", ToJson([id |-> tid, l |-> l, mode |-> "obs", res |-> e.res,
                                               read |-> TRUE, time |-> ok])>>)
          /\ UNCHANGED <<pc, cyc, shipped, root, cur, store, now, enforce, reqs, res, succ, maxRoot, stale, walk, reord, nread, last, chain, hist, tid, ob>>
